@@ -65,11 +65,13 @@ package preempt
 // something only about later jobs of the SAME queue: a popped job is skipped without an attempt only on the answer
 // of a table of failed jobs that holds jobs of ITS OWN queue only - precondition [ownQueueScope] of
 // common.(*MinimalJobRepresentatives).IsEasierToSchedule / UpdateRepresentative (no table of this action is
-// declared cluster-wide), proved at both call sites from the loop invariants below, which speak about EVERY
-// per-queue directory of tables this run of the action created (no local variable is named):
+// declared cluster-wide), proved at both call sites from the loop invariants below over the per-queue directory of
+// tables (the local map smallestFailedJobsByQueue; an engine limit: heap objects carry no type, so the invariant cannot
+// be quantified over "every directory created by this run" instead of naming the local):
 //   [tablesWellFormed] every table registered under a queue is well-formed,
 //   [perQueueScope]    and holds only jobs of that queue,
-//   [tablesSeparate]   tables of different queues share nothing (recording a failure in one leaves the others alone).
+//   [tablesSeparate]   tables of different queues share nothing (recording a failure in one leaves the others alone);
+//   [tablesExist] / [storedJobsExist] are heap-closedness facts the stable-field reasoning needs.
 // A skipped job lost against a stored failed job of its own signature AND its own queue (IsEasierToSchedule
 // [falseNamesStoredRepresentative] [skipOnlyWithinScope]); every other popped job is handed to
 // attemptToPreemptForPreemptor.
